@@ -591,6 +591,21 @@ func c13KMACRelated(run *mon.Run) {
 			mk("prefix", K, []byte{}, 32)
 			mk("prefix", K, K, 32)
 			mk("prefix", K, []byte("KMAC"), 32)
+			// the same concatenation with customizer lengths that agree modulo 256 (a length kept on one byte),
+			// and keys / customizers that agree in length, CRC-32 and byte sum (a checksum instead of the bytes)
+			if rep < 2 {
+				L := mon.RandBytes(r, 258+32)
+				mk("same-concatenation-length-mod-256", L[258:], L[:258], 32)
+				mk("same-concatenation-length-mod-256", L[2:], L[:2], 32)
+				mk("same-concatenation-length-mod-256", L[256:], L[:256], 32)
+				mk("same-concatenation-length-mod-256", L, nil, 32)
+			}
+			K2 := mon.RandBytes(r, 24)
+			mk("checksum-colliding", K2, C, 32)
+			mk("checksum-colliding", crc32Twin(K2, 3), C, 32)
+			C2 := mon.RandBytes(r, 12)
+			mk("checksum-colliding", K2, C2, 32)
+			mk("checksum-colliding", K2, crc32Twin(C2, 2), 32)
 			for i := 0; i < run.Pick(300, 1200); i++ {
 				c := []byte(fmt.Sprintf("c%d", i))
 				if i%2 == 0 {
